@@ -172,11 +172,15 @@ Lemma second_need ro hs l pit c pn T :
   l_data l = data_result fhex numeq ro pn c T -> (0 < c)%nat ->
   filter (in_class (o_mcase ro) k_stop) (s_items (l_well (hs_las hs))) = [pit] ->
   stop_agreesb ro pit T = true -> index_reflb T = true ->
+  (* at least one curve: without one `las.index` raises IndexError (Model/Writer.v, need) *)
+  s_items (l_curves l) <> [] ->
   need_of numeq (mkmlas l (Some (nth 0%nat (l_data l) []))) = Some false.
 Proof.
-  intros HlW Hd Hc HcP Hstop Hrefl.
+  intros HlW Hd Hc HcP Hstop Hrefl Hcur.
   destruct (reb_find fstr ro KWell k_stop _ pit key_plain_stop HcP) as (p & Hp & Hn & _).
-  unfold need_of. cbn [m_las m_index_initial]. rewrite Hd, (D_index fhex numeq ro pn c T Hc).
+  unfold need_of, index_of. cbn [m_las m_index_initial].
+  destruct (s_items (l_curves l)) as [|cv0 cvs]; [contradiction|].
+  rewrite Hd, (D_index fhex numeq ro pn c T Hc).
   rewrite <- map_rev. unfold stop_agreesb in Hstop.
   destruct (rev T) as [|toks r]; [discriminate|]. cbn [map].
   unfold item_value_by. fold k_stop. rewrite HlW. cbn [s_items s_transforms]. rewrite sect_find_nth, Hp, Hn.
@@ -251,7 +255,9 @@ Proof.
   assert (Hidx : reread_index l = Some (nth 0%nat (l_data l) [])).
   { apply (reread_index_some l (List.length crest)). rewrite Hcl. unfold cn. rewrite EC. reflexivity. }
   rewrite Hidx.
-  pose proof (second_need ro hs l pit cn pn T HlW Hdata Hc EP Hstop Hrefl) as Hneed.
+  assert (Hcur : s_items (l_curves l) <> []).
+  { intro E0. rewrite E0 in Hcl. unfold cn in Hcl. rewrite EC in Hcl. discriminate Hcl. }
+  pose proof (second_need ro hs l pit cn pn T HlW Hdata Hc EP Hstop Hrefl Hcur) as Hneed.
   (* the header of the second write *)
   assert (HwI : forall b, wo_wrap o = Some b -> expected_item fstr KVersion (o_mcase ro) wit = wrap_item b).
   { intros b Hb. rewrite Hb in HW. apply hitem_eqb_eq. exact HW. }
